@@ -192,10 +192,28 @@ fn do_dump(apis: &Apis, versions_file: &str, out: &str) {
         .iter()
         .map(|s| semver::Version::parse(s).expect("version"))
         .collect();
+    // a constructor that panics (registration refused) is reported per
+    // style, so that "one style registers, another does not" is observable
+    fn guarded<C: ServerContext>(
+        f: fn() -> ApiDescription<C>,
+        versions: &[semver::Version],
+    ) -> Value {
+        let msg = Arc::new(Mutex::new(String::new()));
+        let m2 = msg.clone();
+        std::panic::set_hook(Box::new(move |info| {
+            *m2.lock().unwrap() = info.to_string();
+        }));
+        let r = std::panic::catch_unwind(|| f());
+        let _ = std::panic::take_hook();
+        match r {
+            Ok(api) => dump_one(api, versions),
+            Err(_) => json!({"error": msg.lock().unwrap().clone()}),
+        }
+    }
     let j = json!({
-        "fn": dump_one((apis.fns)(), &versions),
-        "tr": dump_one((apis.tr)(), &versions),
-        "stub": dump_one((apis.stub)(), &versions),
+        "fn": guarded(apis.fns, &versions),
+        "tr": guarded(apis.tr, &versions),
+        "stub": guarded(apis.stub, &versions),
     });
     std::fs::write(out, serde_json::to_vec(&j).unwrap()).expect("write dump");
 }
